@@ -70,6 +70,9 @@ pub fn client_config(alpn: &[&[u8]]) -> Result<rustls::ClientConfig, String> {
         .map_err(|e| e.to_string())?
         .with_root_certificates(root_store()?)
         .with_no_client_auth();
+    // no session resumption: every handshake must be a full, freshly verified one (a shared
+    // resumption cache would also make executions depend on the order in which cases run)
+    cfg.resumption = rustls::client::Resumption::disabled();
     for a in alpn {
         cfg.alpn_protocols.push(a.to_vec());
     }
@@ -108,6 +111,7 @@ impl TlsFixture {
             .dangerous()
             .with_custom_certificate_verifier(Arc::new(AnyCert(provider())))
             .with_no_client_auth();
+        cc.resumption = rustls::client::Resumption::disabled();
         cc.alpn_protocols.push(b"http/1.1".to_vec());
         let cc = Arc::new(cc);
         // record a ClientHello
